@@ -43,6 +43,7 @@ macro_rules! dispatch {
             "C15" => $f::<props::c15::C15>($($arg),*),
             "C07" => $f::<props::c07::C07>($($arg),*),
             "C08" => $f::<props::c08::C08>($($arg),*),
+            "C11" => $f::<props::c11::C11>($($arg),*),
             "C12" => $f::<props::hist::C12>($($arg),*),
             "C14" => $f::<props::c14::C14>($($arg),*),
             "C06" => $f::<props::hist::C06>($($arg),*),
